@@ -100,6 +100,26 @@ pub fn match_respell(l: &[Act]) -> Vec<Act> {
     dedupe(v)
 }
 
+/// requests every ledger scenario also tries: escrowing requests with a coin of another
+/// denomination attached next to the right one, and a configuration change that names no field
+pub fn misc(cfg: &Cfg, l: &[Act]) -> Vec<Act> {
+    let mut v = vec![];
+    for a in l {
+        if matches!(a.req, Req::CreateAsk { .. } | Req::CreateBid { .. } | Req::ApproveAsk { .. }) && !a.funds.is_empty() {
+            let mut b = a.clone();
+            let other = if a.funds[0].denom == "q1" { "base" } else { "q1" };
+            b.funds.push(cosmwasm_std::coin(3, other));
+            v.push(b);
+            let mut c = a.clone();
+            c.funds.insert(0, cosmwasm_std::coin(1, "aaa"));
+            v.push(c);
+        }
+    }
+    v.push(Act::new(cfg.roles.get("exec"), vec![], Req::Modify(Modify::default())));
+    v.push(Act::new(cfg.roles.get("stranger"), vec![], Req::Modify(Modify::default())));
+    dedupe(v)
+}
+
 /// C03: the match request product
 pub fn match_product(cfg: &Cfg, m: &Menu, thorough: bool) -> Vec<Act> {
     let r = &cfg.roles;
@@ -667,7 +687,7 @@ pub fn modify_field_alts(cfg: &Cfg) -> Vec<Vec<(u8, Modify)>> {
         let mut rev = cur.clone();
         rev.reverse();
         // the last one drops a current member while repeating a kept one (same length as before)
-        vec![cur.clone(), ext, vec![cur[0].clone()], rev, vec![], vec![other.clone()], vec!["X".into()], vec![cur[0].clone(), "BAD".into()], vec![cur[0].clone(), other, cur[0].clone()], vec![cur[0].clone(), cur[0].clone()], vec![cur[1].clone()]]
+        vec![cur.clone(), ext, vec![cur[0].clone()], rev, vec![], vec![other.clone()], vec!["X".into()], vec![cur[0].clone(), "BAD".into()], vec![cur[0].clone(), other, cur[0].clone()], vec![cur[0].clone(), cur[0].clone()], vec![cur[1].clone()], vec!["".into()], vec!["  ".into(), "".into()]]
     };
     let mut groups: Vec<Vec<(u8, Modify)>> = vec![];
     groups.push(
